@@ -2147,6 +2147,8 @@ fn generate_expression(
     expr: &ir::Expression,
     context: &mut GenerateContext,
 ) -> Result<ast::Expression, GenerateError> {
+    #[cfg(feature = "verif-hooks")]
+    rssl_text::verif::tick(22);
     let expr = match expr {
         ir::Expression::Literal(lit) => generate_literal(lit, context)?,
         ir::Expression::Variable(v) => ast::Expression::Identifier(ast::ScopedIdentifier::trivial(
